@@ -28,12 +28,12 @@ struct Inv {
 Inv g_inv[kMaxInv];
 std::atomic<long> g_started{0}, g_finished{0}, g_inflight{0}, g_maxInflight{0}, g_deadFunctor{0};
 std::atomic<uint64_t> g_falseStamp{0};
-std::atomic<int> g_gateSeen{0};
+std::atomic<int> g_gateSeen{0}, g_gateArmed{0};
 
 struct FnCfg {
   long falseAt = -1; // invocation index (0-based) from which the function returns false
   int dwellUs = 0;
-  int mode = 0; // 1: invocation 0 arms the gate at the cancelled-test site, waits until the next kick-off is parked there, then returns false
+  int mode = 0; // 1: invocations arm the gate at the cancelled-test site, wait until a later kick-off is parked there, then return false
 };
 FnCfg g_cfg;
 
@@ -63,9 +63,16 @@ struct Fn {
     g_inv[k].startStamp = st;
     g_inv[k].t = t;
     if (canary->magic != Canary::kAlive) g_deadFunctor.fetch_add(1, std::memory_order_relaxed);
-    if (g_cfg.mode == 1 && k == 0) {
-      vrt::gateArm(V::kTimedAfterCancelTest);
-      g_gateSeen.store(vrt::gateWaitArrived(V::kTimedAfterCancelTest, 3000) ? 1 : 2, std::memory_order_relaxed);
+    if (g_cfg.mode == 1) {
+      // the first invocation to get here arms the gate (its own kick-off has left the site by now);
+      // every invocation then waits until a later kick-off is parked there, and only then returns false
+      if (!g_gateArmed.exchange(1, std::memory_order_relaxed)) vrt::gateArm(V::kTimedAfterCancelTest);
+      bool seen = vrt::gateWaitArrived(V::kTimedAfterCancelTest, 4000);
+      if (seen) g_gateSeen.store(1, std::memory_order_relaxed);
+      else {
+        int z = 0;
+        g_gateSeen.compare_exchange_strong(z, 2, std::memory_order_relaxed);
+      }
     }
     if (g_cfg.dwellUs) vrt::spinFor(g_cfg.dwellUs);
     bool ret = !(g_cfg.falseAt >= 0 && k >= g_cfg.falseAt);
@@ -168,6 +175,7 @@ Obs runCase(const Spec& s) {
   g_deadFunctor = 0;
   g_falseStamp = 0;
   g_gateSeen = 0;
+  g_gateArmed = 0;
   g_cfg.falseAt = s.falseAt;
   g_cfg.dwellUs = s.dwellUs;
   g_cfg.mode = s.scen == kRetFalseGated ? 1 : 0;
@@ -280,7 +288,7 @@ Obs runCase(const Spec& s) {
         break;
       }
       case kRetFalseGated: {
-        double dl = dispenso::getTime() + 5.0;
+        double dl = dispenso::getTime() + 8.0;
         while ((g_finished.load(std::memory_order_relaxed) < 1 || tp->calls() < 1) && dispenso::getTime() < dl) usleep(100);
         o.gateReached = g_gateSeen.load(std::memory_order_relaxed) == 1;
         if (!o.gateReached) vrt::inconclusive("gate not reached");
@@ -426,6 +434,10 @@ void runC26() {
       key = std::string("dtor/random/") + schedName(s.sched);
     } else {
       long which = (idx / 16) % 3; // idx/16 advances once per round of scenarios
+      // The pool variants read a freed closure on the unchanged tree (known finding). Only the
+      // sanitizer builds turn that into a well-defined report; a plain build would just run on into
+      // undefined behaviour (lost wrapper, wild call), so it scripts the harmless ImmediateInvoker variant.
+      if (!(VRT_ASAN || VRT_TSAN)) which = 0;
       s.periodic = true;
       s.hookP = 0;
       s.moveHandle = false;
@@ -441,7 +453,8 @@ void runC26() {
         s.sched = static_cast<int>(r.range(1, 2));
         s.firstMs = 1.0;
         s.falseAt = 0;
-        s.times = 5;
+        s.times = 50; // plenty of later kick-offs, one of which must find the gate armed
+        s.periodMs = 2.0;
         key = "retfalse/gated-next-kickoff/pool";
       }
     }
